@@ -103,6 +103,8 @@ func form(p *reflist.Plan) string {
 		return set("(append " + a + " " + b + " " + c + ")")
 	case "cdr", "rest", "copy-list", "copy-seq", "reverse", "nreverse", "remove-duplicates", "delete-duplicates":
 		return set("(" + op.F + " " + a + ")")
+	case "nconc-end":
+		return set("(nconc (nthcdr " + n + " " + a + ") " + b + ")")
 	case "nthcdr":
 		return set("(nthcdr " + n + " " + a + ")")
 	case "last1":
@@ -434,9 +436,9 @@ func instances(name string, t, a, b, c, maxN, x int, yield func(reflist.Op)) {
 var (
 	derivers = []string{"alias", "cons", "list*", "append1", "append", "append3", "cdr", "rest", "nthcdr", "last", "last1", "member",
 		"remove", "remove-if", "remove-duplicates", "remove-fe", "remove-if-fe", "remove-se", "remove-duplicates-fe", "delete-fe", "delete-se", "butlast", "butlast1", "subseq", "subseq1", "copy-list", "copy-seq",
-		"reverse", "mapcar", "mapcons", "maplist2", "maprest1", "maprest2", "push", "pop", "rplaca", "nreverse", "sort", "stable-sort", "delete", "delete-if", "delete-duplicates", "add", "add2", "nconc", "rplacd"}
+		"reverse", "mapcar", "mapcons", "maplist2", "maprest1", "maprest2", "push", "pop", "rplaca", "nreverse", "sort", "stable-sort", "delete", "delete-if", "delete-duplicates", "add", "add2", "nconc", "nconc-end", "rplacd"}
 	mutators = []string{"setcar", "setnth", "setelt", "rplaca", "rplacd", "nconc", "nreverse", "sort", "stable-sort", "delete", "delete-if",
-		"delete-duplicates", "delete-fe", "delete-se", "add", "add2", "push", "pop", "cons", "append", "list*"}
+		"delete-duplicates", "delete-fe", "delete-se", "add", "add2", "push", "pop", "cons", "append", "list*", "nconc-end"}
 )
 
 // grid describes an exhaustive family of short histories: v0 = every creation mode x every length in lens;
